@@ -62,6 +62,7 @@ pub fn rerun(line: &str) -> Option<String> {
         }
         ["selecth", hx, e0, e, md, v] => Some(crate::gen::selecth_line(
             &unhex(hx), e0.parse().ok()?, e.parse().ok()?, md.parse().ok()?, v.parse().ok()?)),
+        ["xref", hx, e, md, v] => Some(crate::unitops::xref_line(&unhex(hx), e.parse().ok()?, md.parse().ok()?, v.parse().ok()?)),
         ["uline", nibs] => Some(crate::unitops::uline_line(nibs)),
         ["usq", v, nibs] => Some(crate::unitops::usq_line(v.parse().ok()?, nibs)),
         ["ustructure", e, v, hx] => Some(crate::unitops::ustructure_line(e.parse().ok()?, v.parse().ok()?, &unhex(hx))),
